@@ -2,7 +2,8 @@
    Only theorem statements closed by [exact]; proofs in Save/TopoProofs.v,
    Save/KahnProofs.v, Save/TopoRegress.v. *)
 From Coq Require Import List ZArith Bool Permutation.
-From RtoscV Require Import Save.TopoModel Save.KahnProofs Save.TopoProofs Save.TopoRegress.
+From RtoscV Require Ports.NameModel.
+From RtoscV Require Import Save.TopoModel Save.KahnProofs Save.TopoProofs Save.TopoEdges Save.TopoPerm Save.TopoTree Save.TopoRegress.
 Import ListNotations.
 
 (* The sort as coded (counters, queue seeded in file order, fuel = number of
@@ -35,21 +36,58 @@ Theorem C13_linear_extensions_agree :
     forall s, run X S f l1 s = run X S f l2 s.
 Proof. exact linext_unique. Qed.
 
-(* Full statement: Permutation f1 f2 -> load f1 = load f2 (state and count).
-   Proved here as the composition: whenever the two hand-out orders are
-   permutations of their files that respect one dependency relation R on lines
-   (what C13_topo gives for each file; side condition [same R for both files]:
-   the edges depend on the addresses present, not on their positions), state
-   and count agree.  Commutation of independent messages is a hypothesis. *)
+(* The edges of a file depend only on the set of addresses that have a line,
+   not on where the lines stand. *)
+Theorem C13_same_edges : forall A apropos fuel (ms1 ms2 : list (message A)) cur,
+  Permutation ms1 ms2 ->
+  scan_deps apropos (map_keys A ms1) fuel cur = scan_deps apropos (map_keys A ms2) fuel cur.
+Proof. exact same_edges. Qed.
+
+(* Every "enabled by" / "depends" / "default depends" reference - of the port a
+   line addresses or of any of its parents - whose target has a line yields an
+   edge (target, line).  For ANY lookup function apropos; the '#' restriction of
+   the design concerns whether Ports::apropos finds the referring port (C18) and
+   shows up only once apropos is instantiated (apropos_of_tree below). *)
+Theorem C13_edges_complete : forall A apropos fuel (ms : list (message A)) ps k o ic m e t i,
+  pushes A apropos fuel ms = Some ps ->
+  In k (map_keys A ms) -> index_of A k ms = Some o ->
+  In ic (flagged (ancestors k)) ->
+  apropos (if fst ic then snd ic ++ [slash] else snd ic) = Some m ->
+  In e (dep_values m) -> rel2abs e (snd ic) = Some t ->
+  index_of A t ms = Some i -> has_key (map_keys A ms) t = true ->
+  In (i, o) ps.
+Proof. exact edges_complete. Qed.
+
+(* PERMUTATION INVARIANCE for the model's loader: two files with the same lines
+   (distinct addresses, acyclic edges) are handed out in orders that give the
+   same final state and the same count, for every initial state.
+   _partial: the one remaining side condition is that two messages neither of
+   which waits for the other commute; it is NOT yet discharged for C12's
+   abstract application (there a message writes its own port, the dependents of
+   a selector and the sub-tree of a switch - all of which wait for it). *)
 Theorem C13_perm_invariant_partial :
-  forall (L S : Type) (R : L -> L -> Prop) (apply : L -> S -> S),
-    (forall x y s, ~ R x y -> ~ R y x -> apply x (apply y s) = apply y (apply x s)) ->
-    forall f1 f2 s1 s2,
-      NoDup f1 -> Permutation f1 f2 ->
-      Permutation s1 f1 -> respects R s1 ->
-      Permutation s2 f2 -> respects R s2 ->
-      forall st, run L S apply s1 st = run L S apply s2 st /\ length s1 = length s2.
-Proof. exact perm_invariant. Qed.
+  forall A apropos fuel (S : Type) (apply : message A -> S -> S) (ms1 ms2 : list (message A)) ps1 ps2 d,
+    NoDup (map fst ms1) -> Permutation ms1 ms2 ->
+    pushes A apropos fuel ms1 = Some ps1 -> pushes A apropos fuel ms2 = Some ps2 ->
+    ranked ps1 -> ranked ps2 ->
+    (forall x y s, ~ waits_for A apropos fuel (map_keys A ms1) x y ->
+                   ~ waits_for A apropos fuel (map_keys A ms1) y x ->
+                   apply x (apply y s) = apply y (apply x s)) ->
+    exists o1 o2,
+      load_order apropos fuel ms1 = Some o1 /\ load_order apropos fuel ms2 = Some o2 /\
+      length o1 = length o2 /\
+      forall st, run _ _ apply (map (fun i => nth i ms1 d) o1) st
+               = run _ _ apply (map (fun i => nth i ms2 d) o2) st.
+Proof. exact perm_invariant_load. Qed.
+
+(* C13_topo with the lookup instantiated by the models of the code scan_deps
+   calls: Ports::apropos (C18) on a port tree, MetaContainer::operator[] (C17) *)
+Theorem C13_topo_tree : forall A (root : list NameModel.port) fuel (ms : list (message A)) ps,
+  pushes A (apropos_of_tree root) fuel ms = Some ps -> ranked ps ->
+  exists order, load_order (apropos_of_tree root) fuel ms = Some order /\
+                Permutation order (seq 0 (length ms)) /\
+                respects (edge ps) order.
+Proof. exact load_order_topo_tree. Qed.
 
 (* regression: before the fix a dependency declared on an enumerated sub-tree
    produced no edge *)
@@ -57,6 +95,15 @@ Theorem C13_edge_of_enumerated_subtree_before_fix_refuted :
   exists apropos keys cur,
     scan_deps apropos keys 8 cur = Some [p_on] /\ scan_deps_old apropos keys 8 cur = Some [].
 Proof. exact edge_of_enumerated_subtree_before_fix_refuted. Qed.
+
+(* regression: before the fix the empty rest behind rDepends' trailing ',' was
+   scanned as an entry; with a same-named port inside an enabled-by sub-tree
+   the scan did not end (out of fuel here, stack overflow in the code) *)
+Theorem C13_trailing_comma_entry_before_fix_refuted :
+  entries_old [113; 44]%Z = [[113; 44]; []]%Z /\ entries [113; 44]%Z = [[113; 44]]%Z /\
+  exists apropos cur,
+    scan_deps apropos [] 40 cur = Some [] /\ scan_deps_old2 apropos [] 40 cur = None.
+Proof. exact trailing_comma_entry_before_fix_refuted. Qed.
 
 (* non-vacuity: "/b" declares default depends = "a"; file order /b, /a;
    the edge is found, is ranked, and the sort hands /a out first *)
